@@ -109,9 +109,18 @@ def TRUNC (x : Dec) (nd : Num) : Res RVal :=
   if nd.toRat == 0 then .val (.num (.int (truncInt x)))
   else pyRound .down x nd
 
-/-- `math.ceil(abs(float(number)) / 2.) * -2` resp. `math.ceil(float(number) / 2.) * 2` -/
+/-- The float quotient `x / s` of a non-zero `x` rounds to zero (finding D1605): the ideal quotient is
+    at or below half the smallest subnormal double, `2^-1075 ≈ 2.47e-324` (a little slack covers the
+    decimal spelling of subnormal doubles: `repr(2^-1074)` is `5e-324`). -/
+def quotientUnderflows (x s : Rat) : Bool :=
+  let q := x / s
+  q != 0 && (if q < 0 then -q else q) ≤ 3 / ((10 ^ 324 : Nat) : Rat)
+
+/-- `math.ceil(abs(float(number)) / 2.) * -2` resp. `math.ceil(float(number) / 2.) * 2`
+    (D1605: for the smallest subnormal double the float quotient is zero). -/
 def EVEN (x : Dec) : Res RVal :=
-  if x.isNeg then .val (.num (.int ((x.mag / 2).ceil * -2)))
+  if quotientUnderflows x.mag 2 then .val (.num (.int 0))
+  else if x.isNeg then .val (.num (.int ((x.mag / 2).ceil * -2)))
   else .val (.num (.int ((x.toRat / 2).ceil * 2)))
 
 /-- The float quotient `number / significance` is infinite (`math.ceil`/`math.floor` then raise
@@ -146,7 +155,8 @@ def CEILING (x s : Dec) : Res RVal :=
     let xq := x.toRat
     let sq := s.toRat
     if quotientOverflows xq sq then .xlerr .num else
-    let ceiling := mulInt s (xq / sq).ceil
+    -- D1605: an underflowing float quotient is zero, and so is its ceiling
+    let ceiling := mulInt s (if quotientUnderflows xq sq then 0 else (xq / sq).ceil)
     if isIntRat (xq / sq) then .val (.dec ceiling)              -- number % significance == 0
     else
       let mode := if x.isNeg && s.isNeg then Mode.down else Mode.up
@@ -163,7 +173,7 @@ def FLOOR (x s : Dec) : Res RVal :=
     let xq := x.toRat
     let sq := s.toRat
     if quotientOverflows xq sq then .xlerr .num
-    else .val (.dec (mulInt s (xq / sq).floor))
+    else .val (.dec (mulInt s (if quotientUnderflows xq sq then 0 else (xq / sq).floor)))
 
 /-! ### elementary functions -/
 
